@@ -32,7 +32,7 @@ A trace line is a flat record {k, t, v, r} (see spec/extra/WorkersOps.tla).
 import threading
 import time
 
-WAIT_S = 60.0           # bound on every wait for the real pool (machinery error when exceeded)
+WAIT_S = 300.0          # bound on every wait for the real pools (machinery error when exceeded; the machine may be very busy)
 SETTLE_TICKS = 40       # cap of the driver's settling loop (= SettleCap of Workers.tla)
 
 # outcome classes of a job (the `v` of a fire line): what job(t, code=c) does
@@ -486,8 +486,8 @@ class World:
             self.pool.execute(r)
             return True
         n = self._count('exec', t)
-        if n >= len(self.results.get(t, [])):
-            return False             # nothing of t waits in the pool
+        if self.terminated or n >= len(self.results.get(t, [])):
+            return False             # nothing of t waits in the pool (a terminated pool starts nothing any more)
         self.open_gate(t)
         self._wait(lambda: self._count('exec', t) > n, 'job %d to start' % t)
         return True
